@@ -17,6 +17,9 @@ pub const BO_REG_FIRST: u8 = 1;
 pub const BO_CHECK: u8 = 2;
 pub const BO_REG_AFTER: u8 = 3;
 pub const BO_WAIT: u8 = 4;
+pub const BO2_CHECK_A: u8 = 5;
+pub const BO2_CHECK_B: u8 = 6;
+pub const BO2_READY: u8 = 7;
 
 pub trait Choose {
     /// pick one of `n` alternatives (n >= 1)
@@ -121,7 +124,8 @@ struct CvSt {
 #[derive(Clone, Debug, Default)]
 struct NotifySt {
     flag: bool,
-    src: Option<usize>,
+    /// every notification since the last consumption (the waiter acquires from all of them)
+    src: Vec<usize>,
     spurious_used: bool,
 }
 
@@ -207,6 +211,7 @@ pub struct Machine<'p> {
     /// generation of each thread's block_on calls (a registered waker belongs to one call)
     bo_gen: Vec<u32>,
     aw_last_unlock: Option<usize>,
+    waker_slots: [Option<(u8, u32)>; 2],
     /// per thread: the Notify of its current block_on: notified flag + source, spurious used
     bo: Vec<NotifySt>,
     /// guided replay: a cell read returned something else than the latest write (only legal in
@@ -283,6 +288,7 @@ impl<'p> Machine<'p> {
             aw_slot: None,
             bo_gen: vec![0; nt],
             aw_last_unlock: None,
+            waker_slots: [None, None],
             bo: vec![NotifySt::default(); nt],
             cell_mismatch: false,
             extra_large: Vec::new(),
@@ -396,6 +402,13 @@ impl<'p> Machine<'p> {
                 st.flag || (self.cfg.reading == Reading::May && !st.spurious_used)
             }
             Op::Recv { c } => !self.chan[c as usize].queue.is_empty(),
+            Op::BlockOn2 { .. } => match self.th[t].sub {
+                BO_WAIT => {
+                    let st = &self.bo[t];
+                    st.flag || (self.cfg.reading == Reading::May && !st.spurious_used)
+                }
+                _ => true,
+            },
             Op::BlockOn { a, o, .. } => match self.th[t].sub {
                 BO_WAIT => {
                     let st = &self.bo[t];
@@ -423,7 +436,7 @@ impl<'p> Machine<'p> {
         let tid = t as u8;
         match *op {
             Op::NWait { n } => self.notify[n as usize].flag,
-            Op::BlockOn { .. } if self.th[t].sub == BO_WAIT => self.bo[t].flag,
+            Op::BlockOn { .. } | Op::BlockOn2 { .. } if self.th[t].sub == BO_WAIT => self.bo[t].flag,
             Op::CvWait { c, m } if self.th[t].sub == 1 => {
                 let woken = self.th[t].cv_notified.is_some()
                     || self.cv[c as usize].permits.iter().any(|(el, _)| el.contains(&tid));
@@ -476,7 +489,13 @@ impl<'p> Machine<'p> {
     }
 
     pub fn is_block_on(&self, t: usize) -> bool {
-        matches!(self.cur_op(t).and_then(|o| self.effective(t, o)), Some(Op::BlockOn { .. }))
+        matches!(self.cur_op(t).and_then(|o| self.effective(t, o)), Some(Op::BlockOn { .. }) | Some(Op::BlockOn2 { .. }))
+    }
+    pub fn is_block_on2(&self, t: usize) -> bool {
+        matches!(self.cur_op(t).and_then(|o| self.effective(t, o)), Some(Op::BlockOn2 { .. }))
+    }
+    pub fn block_on2_ready(&self, t: usize) -> bool {
+        self.th[t].sub == BO2_READY
     }
     pub fn block_on_value(&self, t: usize) -> Option<u64> {
         match self.cur_op(t).and_then(|o| self.effective(t, o)) {
@@ -494,7 +513,8 @@ impl<'p> Machine<'p> {
         match self.cur_op(t).and_then(|o| self.effective(t, o)) {
             Some(Op::CvWait { m, .. }) => self.th[t].sub == 0 && self.mutex[*m as usize].owner == Some(t as u8),
             // registration and wake-up inside block_on leave no event of their own
-            Some(Op::AwWake) => self.guided && self.th[t].sub == 0,
+            Some(Op::AwWake) | Some(Op::SlotWake { .. }) => self.guided && self.th[t].sub == 0,
+            Some(Op::BlockOn2 { .. }) => self.th[t].sub == BO_WAIT,
             Some(Op::BlockOn { reg_first, .. }) => matches!(self.th[t].sub, BO_REG_FIRST | BO_REG_AFTER | BO_WAIT) || (self.th[t].sub == 0 && *reg_first),
             _ => false,
         }
@@ -1038,7 +1058,7 @@ impl<'p> Machine<'p> {
                     st.spurious_used = true;
                 } else {
                     st.flag = false;
-                    if let Some(s) = st.src {
+                    for s in std::mem::take(&mut st.src) {
                         self.g.extra.push((s, e));
                     }
                     self.probe_blocked_then_woken += 1;
@@ -1048,7 +1068,7 @@ impl<'p> Machine<'p> {
                 let e = self.push_ev(t, pc, EK::Sync, NOLOC, MO::Rlx);
                 let st = &mut self.notify[n as usize];
                 st.flag = true;
-                st.src = Some(e);
+                st.src.push(e);
             }
             Op::Send { c, v } => {
                 let e = self.push_ev(t, pc, EK::Sync, NOLOC, MO::Rlx);
@@ -1296,7 +1316,7 @@ impl<'p> Machine<'p> {
                             st.spurious_used = true;
                         } else {
                             st.flag = false;
-                            if let Some(s) = st.src {
+                            for s in std::mem::take(&mut st.src) {
                                 self.g.extra.push((s, e));
                             }
                             self.probe_blocked_then_woken += 1;
@@ -1325,7 +1345,74 @@ impl<'p> Machine<'p> {
                     if self.bo_gen[owner as usize] == gen {
                         let st = &mut self.bo[owner as usize];
                         st.flag = true;
-                        st.src = Some(e);
+                        st.src.push(e);
+                    }
+                }
+            }
+            Op::BlockOn2 { a, va, b, vb, o } => {
+                completed = false;
+                if self.th[t].sub == 0 {
+                    self.bo[t] = NotifySt::default();
+                    self.bo_gen[t] += 1;
+                    // the first poll hands out the waker clones
+                    self.waker_slots = [Some((tid, self.bo_gen[t])), Some((tid, self.bo_gen[t]))];
+                    self.th[t].sub = BO2_CHECK_A;
+                }
+                match self.th[t].sub {
+                    BO2_CHECK_A | BO2_CHECK_B => {
+                        let (loc, target) = if self.th[t].sub == BO2_CHECK_A { (a, va) } else { (b, vb) };
+                        let want = if self.guided { exp } else { None };
+                        let cands = self.read_candidates(t, loc, o, want, false);
+                        if cands.is_empty() {
+                            return Err(StepErr::Reject(format!("T{} block_on: value {:?} of a{} not readable", t, exp, loc)));
+                        }
+                        let w = cands[ch.choose(cands.len())];
+                        self.do_read(t, pc, loc, o, w, false);
+                        if self.g.evs[w].wval != target {
+                            self.th[t].sub = BO_WAIT;
+                        } else if self.th[t].sub == BO2_CHECK_A {
+                            self.th[t].sub = BO2_CHECK_B;
+                        } else {
+                            self.th[t].sub = BO2_READY;
+                        }
+                    }
+                    BO2_READY => {
+                        completed = true;
+                    }
+                    _ => {
+                        let e = self.push_ev(t, pc, EK::Sync, NOLOC, MO::Rlx);
+                        let may = self.cfg.reading == Reading::May;
+                        let st = &mut self.bo[t];
+                        let can_consume = st.flag;
+                        let can_spur = may && !st.spurious_used;
+                        let spur = if can_consume && can_spur { ch.choose(2) == 1 } else { !can_consume };
+                        if spur {
+                            assert!(can_spur);
+                            st.spurious_used = true;
+                        } else {
+                            st.flag = false;
+                            for s in std::mem::take(&mut st.src) {
+                                self.g.extra.push((s, e));
+                            }
+                            self.probe_blocked_then_woken += 1;
+                        }
+                        self.th[t].sub = BO2_CHECK_A;
+                    }
+                }
+            }
+            Op::SlotWake { .. } if self.th[t].sub == 1 => {}
+            Op::SlotWake { i, by_ref } => {
+                if self.guided {
+                    completed = false;
+                    self.th[t].sub = 1;
+                }
+                let e = self.push_ev(t, pc, EK::Sync, NOLOC, MO::Rlx);
+                let slot = if by_ref { self.waker_slots[i as usize] } else { self.waker_slots[i as usize].take() };
+                if let Some((owner, gen)) = slot {
+                    if self.bo_gen[owner as usize] == gen && !self.th[owner as usize].done {
+                        let st = &mut self.bo[owner as usize];
+                        st.flag = true;
+                        st.src.push(e);
                     }
                 }
             }
